@@ -99,19 +99,6 @@ def compare(sp, rules, ref, other, what='second run', noise=None):
                     return True
         return False
 
-    for name, a, b, kind, l in S.links_of(sp):
-        s1 = ref.link['status'][name][ri]
-        s2 = other.link['status'][name][oi]
-        bad = np.nonzero(s1 != s2)[0]
-        if len(bad):
-            k = int(bad[0])
-            if nstat is not None and k >= nstat:
-                return ('inconclusive', 'statuses of the reference run are not reproducible under a solver-tolerance perturbation')
-            if near_threshold(k) or (k + 1 < len(grid) and near_threshold(k + 1)):
-                return ('inconclusive', 'status differs where a tank level is within the event-time band of a threshold')
-            return ('fail', 'status/%s' % kind, 't=%d s link %s: status %s in the reference run vs %s in the %s'
-                    % (grid[k], name, s1[k], s2[k], what), grid[k])
-    hband = band * (1.0 + nev)
     ndev = {}
     nstat = None
     if noise is not None:
@@ -133,6 +120,19 @@ def compare(sp, rules, ref, other, what='second run', noise=None):
             if len(bad):
                 first_bad = min(first_bad, int(bad[0]))
         nstat = first_bad
+    for name, a, b, kind, l in S.links_of(sp):
+        s1 = ref.link['status'][name][ri]
+        s2 = other.link['status'][name][oi]
+        bad = np.nonzero(s1 != s2)[0]
+        if len(bad):
+            k = int(bad[0])
+            if nstat is not None and k >= nstat:
+                return ('inconclusive', 'statuses of the reference run are not reproducible under a solver-tolerance perturbation')
+            if near_threshold(k) or (k + 1 < len(grid) and near_threshold(k + 1)):
+                return ('inconclusive', 'status differs where a tank level is within the event-time band of a threshold')
+            return ('fail', 'status/%s' % kind, 't=%d s link %s: status %s in the reference run vs %s in the %s'
+                    % (grid[k], name, s1[k], s2[k], what), grid[k])
+    hband = band * (1.0 + nev)
     for kind_, keys, names in (('node', ('head', 'demand', 'leak_demand'), S.node_names(sp)),
                                ('link', ('flowrate',), [l[0] for l in S.links_of(sp)])):
         for key in keys:
